@@ -107,7 +107,7 @@ static void setup_pad(Runner &r, const Tier &t) {
     g_pad.clear(); g_padfonts.clear(); g_padtext.clear();
     std::vector<ShippedFont> sf = shipped_fonts();
     if (!t.thorough) sf.resize(8);
-    static std::vector<std::string> gen; gen = { gen_dir() + "/feat_shortids.ttf", gen_dir() + "/feat_1_31_1.ttf", gen_dir() + "/s_full.ttf" };
+    static std::vector<std::string> gen; gen = { gen_dir() + "/feat_shortids.ttf", gen_dir() + "/feat_spaceids.ttf", gen_dir() + "/feat_1_31_1.ttf", gen_dir() + "/s_full.ttf" };
     for (auto &g : gen) sf.push_back({ g.c_str(), "test_small.txt", false });
     for (size_t i = 0; i < sf.size(); ++i) {
         TableSet ts; if (!ts.from_file(sf[i].file[0] == '/' ? std::string(sf[i].file) : font_path(sf[i].file))) continue;
@@ -130,12 +130,16 @@ static void setup_pad(Runner &r, const Tier &t) {
     r.body = [](uint64_t i, ShardCtl &ctl) {
         const PadCase &c = g_pad[i]; gr_face *f = pad_face(c.font); if (!f) return;
         uint32_t z = padded(c.tag, c.k, 0), s = padded(c.tag, c.k, 0x20);
-        // prefixes that already contain a padding byte (NUL or space) are not well-formed tags: skipped
-        for (int b = 0; b < c.k; ++b) { uint8_t ch = uint8_t(c.tag >> (24 - 8 * b)); if (ch == 0 || ch == 0x20) return; }   // a prefix containing padding itself is not a tag
+        // a prefix that itself ENDS in a padding byte (NUL or space) merges with the padding that is appended: not a well-formed tag, skipped
+        // (padding bytes in the middle of a tag, followed by another character, are ordinary characters)
+        if (c.k > 0) { uint8_t ch = uint8_t(c.tag >> (24 - 8 * (c.k - 1))); if (ch == 0 || ch == 0x20) return; }
         bool ok = true; std::string why;
         if (c.kind == 0) {
             const gr_feature_ref *a = gr_face_find_fref(f, z), *b = gr_face_find_fref(f, s);
             if (a != b) { ok = false; why = "find_fref differs"; }
+            // a complete id of the font (not ending in a space, which the API reads as padding) must select exactly that feature
+            if (ok && c.k == 4 && (z & 0xFF) != 0x20) { bool isid = false; for (unsigned q = 0; q < gr_face_n_fref(f); ++q) if (gr_fref_id(gr_face_fref(f, uint16_t(q))) == z) isid = true;
+                if (isid && (!a || gr_fref_id(a) != z)) { ok = false; why = a ? "find_fref(id) selects a different feature" : "find_fref(id) does not find the feature with that id"; } }
             ctl.cls(a ? 2 : 1); if (a) ctl.counters[1] = ctl.counters[1] + 1;
         } else if (c.kind == 1) {
             gr_feature_val *a = gr_face_featureval_for_lang(f, z), *b = gr_face_featureval_for_lang(f, s), *d = gr_face_featureval_for_lang(f, 0);
